@@ -29,6 +29,37 @@ func runC18(c *Ctx) {
 	}
 	// ---- R18.1
 	c18LongestAll(c, lines, []string{"Bytes", "Runes", "Cells"})
+	// the three per-line measures are what their dependency says, with nothing added: bytes = len, runes = the rune
+	// count, cells = the width library's measure of the same string. ("cells <= 2*runes" and "runes <= bytes" are
+	// properties of those measures; a correction term on top - tab stops, margins - takes them away.)
+	for _, m := range []struct{ name, what string }{{"StringBytes", "len"}, {"StringRunes", "unicode/utf8"}, {"StringCells", "github.com/mattn/go-runewidth"}} {
+		f := c.FuncOpt("length", m.name)
+		if f == nil || len(f.Params) != 1 {
+			continue
+		}
+		for i, ret := range returnsOf(f) {
+			for _, v := range phiClosure(results(ret)[0]) {
+				ok, why := false, "the result is computed ("+v.String()+"), not the measure itself"
+				if call, isCall := v.(*ssa.Call); isCall {
+					argOK := false
+					for _, a := range call.Call.Args {
+						if a == ssa.Value(f.Params[0]) {
+							argOK = true
+						}
+					}
+					if b, isB := call.Call.Value.(*ssa.Builtin); isB {
+						ok = m.what == "len" && b.Name() == "len" && argOK
+					} else if g := call.Call.StaticCallee(); g != nil {
+						ok = strings.HasPrefix(funcPkgPath(g), m.what) && argOK
+						if !argOK {
+							why = "the measure is applied to something other than the string given"
+						}
+					}
+				}
+				r.Check("R18.1", FuncName(f), fmt.Sprintf("return #%d is the %s measure of the argument itself", i+1, m.what), ret.Pos(), ok, why)
+			}
+		}
+	}
 
 	// ---- R18.2
 	nsplit := 0
